@@ -605,7 +605,7 @@ func (s *Server) stopLocked(err error) {
 	var keep jmessages
 	s.inq.Each(func(cur jmessages) bool {
 		for _, req := range cur {
-			if req.isNotification() {
+			if req.isNotification() && req.err == nil {
 				keep = append(keep, req)
 				s.log("Retaining notification %p", req)
 			} else {
